@@ -110,6 +110,46 @@ func TestVFC15RegressOtherKindAllFailed(t *testing.T) {
 	t.Fatalf("%s", failure)
 }
 
+// TestVFC15RegressFirstRefreshOtherKindFailed is the case the generator
+// shrinks the same finding to: on the very first refresh of both kinds the only
+// block list is stored successfully while the only allow list answers 404; the
+// block list's rules must be in force afterwards.
+func TestVFC15RegressFirstRefreshOtherKindFailed(t *testing.T) {
+	vfkit.Begin(t)
+	vfC15Quiet()
+
+	var w *vfC15World
+	defer func() {
+		if w != nil {
+			w.close()
+		}
+	}()
+
+	failure := vfC15Try(func(tb vfC15TB) {
+		w = vfC15NewWorld(tb, []vfC15Spec{{Allow: false}, {Allow: true}})
+		w.verify(tb)
+		blk, alw := w.lists[0], w.lists[1]
+		w.run(tb, &vfC15Plan{
+			How: "direct", Block: true, Allow: true, Force: false,
+			Due:  map[int]bool{blk.Idx: true, alw.Idx: true},
+			Acts: map[int]*vfC15Act{blk.Idx: vfC15Scripted(blk, 1, 200), alw.Idx: vfC15Scripted(alw, 1, 404)},
+		})
+		w.verify(tb)
+	})
+	if failure == "" {
+		return
+	}
+
+	if _, open := vfkit.KnownOpen("C15", vfC15SigStale); open {
+		vfC15.KnownLine("signature=" + vfC15SigStale + " first scheduled refresh: block list stored, allow list 404, " +
+			"block list not in force")
+
+		return
+	}
+
+	t.Fatalf("%s", failure)
+}
+
 // TestVFC15RegressSameKindMixed is the control of the above: the failing and
 // the succeeding list are of the same kind; the new form must be in force and
 // the failed list untouched.
